@@ -16,30 +16,38 @@ ASSUME = [
     "the outbound socket of an association is identified by its source PORT (it is a dual-stack wildcard socket, the source IP "
     "follows the route to the destination); a port is considered re-usable once RemoveNatEntry was reported for its association",
     "the driver is step-synchronous; datagrams received during a step are attributed to that step",
+    "two families: (main) loopback+public validator with IP-literal destinations; (def) the handler's DEFAULT validator with host-name "
+    "destinations (localhost via /etc/hosts, *.verif.test via an in-process DNS behind net.DefaultResolver); every other behaviour "
+    "drives Handle with the conn of service.NewListenerManager().ListenPacket (production path)",
     "TLC 1.8.0 and the hand transcription of udp.go into UdpNat.tla",
 ]
 
 
 def nontrivial(b):
-    cl = {s["c"] for s in b if s["a"] == "CDgram" and s["k"] != 0 and s["hdr"] and s["dst"] != 3}
+    cl = {s["c"] for s in b if s["a"] == "CDgram" and s["k"] != 0 and s["hdr"]}
     stranger = any(s["a"] == "TReply" and s["src"] in (6, 7, 8) for s in b)
+    # (a late reply after another client has sent: the case in which a shared source-address object would misroute)
     return len(cl) >= 2 or (len(cl) >= 1 and stranger)
 
 
 def run(ctx):
     q = ctx.quick
     U.exhaustive(ctx, ["MC_UdpNatC03.cfg", "MC_UdpNatSync.cfg"] if q else ["MC_UdpNatC03T.cfg", "MC_UdpNatSync.cfg", "MC_UdpNatLong.cfg"], "C04")
-    behs = U.gen(ctx, "Gen_UdpNatReal.cfg", 110 if q else 700, seed=ctx.seed + 7919)
-    trace, sums = U.run_real(ctx, behs, "c04")
-    U.validate(ctx, trace, "UdpNatTraceReal.cfg", U.PROPS["C04"], "real sockets, TLC behaviours", behs)
-    U.summary_violations(ctx, sums, behs, "real sockets, TLC behaviours", set())
-    ctx.cov["evaluations"] += len(behs)
-    ctx.cov["distinct_nontrivial"] += U.count(behs, nontrivial)
-    rows = vlib.read_ndjson(trace)
-    ctx.cov["source_ports_observed"] = len({r["from"] for r in rows if r.get("ev") == "TRecv"})
-    ctx.cov["replies_relayed"] = sum(1 for r in rows if r.get("ev") == "CRecv")
-    ctx.sample({"behaviour": behs[0]})
-    ctx.sample({"target_observations": [r for r in rows if r.get("ev") == "TRecv"][:5]})
+    fams = U.real_families(ctx, "c04", 60 if q else 400, 50 if q else 300, U.PROPS["C04"], seed_off=7919)
+    ctx.cov["source_ports_observed"] = 0
+    ctx.cov["replies_relayed"] = 0
+    ctx.cov["behaviours_via_listener_manager"] = 0
+    for fam, behs, trace, sums in fams:
+        ctx.cov["evaluations"] += len(behs)
+        ctx.cov["distinct_nontrivial"] += U.count(behs, nontrivial)
+        rows = vlib.read_ndjson(trace)
+        ctx.cov["source_ports_observed"] += len({r["from"] for r in rows if r.get("ev") == "TRecv"})
+        ctx.cov["replies_relayed"] += sum(1 for r in rows if r.get("ev") == "CRecv")
+        ctx.cov["behaviours_via_listener_manager"] += sum(1 for x in sums if x.get("via_manager"))
+        ctx.sample({"family": fam, "behaviour": behs[0]})
+        ctx.sample({"family": fam, "target_observations": [r for r in rows if r.get("ev") == "TRecv"][:4]})
+        if fam == "def":
+            ctx.cov["hostname_datagrams"] = sum(1 for r in rows if r.get("ev") == "CSend" and r["dst"] in (11, 12, 13))
     vlib.write_evidence(ctx, "model_checking",
                         "as C03; non-trivial = at least two clients have associations in the behaviour, or a stranger / other-port "
                         "socket sends to an association's source port",
